@@ -132,6 +132,14 @@ def extract(repo=None, extra_args=(), tag='base', only=None, overlay=None):
         fdir = os.path.join(CACHE, 'facts', key)
         done = os.path.join(fdir, '.done')
         info = {'units': len(ents), 'key': key, 'cached': os.path.exists(done), 'build_dir': bdir, 'overlay': overlay}
+        cfgh = None
+        for a in extra_args:
+            if a.startswith('-I') and os.path.exists(os.path.join(a[2:], 'config.h')):
+                cfgh = os.path.join(a[2:], 'config.h')
+        cfgh = cfgh or os.path.join(bdir, 'src', 'config.h')
+        import re as _re
+        m = _re.search(r'(?m)^#define\s+CPU_IS_BIG_ENDIAN\s+(\d+)', open(cfgh).read())
+        info['big_endian'] = bool(m and m.group(1) == '1')
         if not os.path.exists(done):
             if os.path.isdir(fdir):
                 shutil.rmtree(fdir)
